@@ -20,6 +20,7 @@ mod scen_c13;
 mod scen_c14;
 mod scen_c17;
 mod scen_rd;
+mod scen_wr;
 mod scen_rt;
 mod world;
 
@@ -38,6 +39,8 @@ pub fn lookup(scen: &str) -> Option<Scenario> {
     Some(match scen {
         "rt" => scen_rt::run,
         "c13" => scen_c13::run,
+        "c08" => scen_wr::run_c08,
+        "c15" => scen_wr::run_c15,
         "c07" => scen_rd::run_c07,
         "c07split" => scen_rd::run_c07_split,
         "c06" => scen_rd::run_c06,
